@@ -347,6 +347,32 @@ def main(ctx):
                                'marker_first_only': first_only})
                 ctx.count(('rekey-raw', role, first_only, rk),
                           nontrivial=True)
+    # re-keying with every compression method between two real endpoints:
+    # RFC 4253 section 6.2 / 7.1 - compression contexts start afresh with the new keys
+    # (the independent decoder starts a new inflate context at every NEWKEYS;
+    # two endpoints that share a mistake still understand each other)
+    prng = random.Random(4253)       # incompressible: the byte limit counts what is sent
+    pl = [prng.randbytes(400) for i in range(10)]
+    for ci, (enc, mac) in enumerate((('aes128-ctr', 'hmac-sha2-256'),
+                                     ('aes128-gcm@openssh.com', None),
+                                     ('chacha20-poly1305@openssh.com', None),
+                                     ('aes256-cbc', 'hmac-sha1-etm@openssh.com'))):
+        for cmp_ in ('zlib', 'zlib@openssh.com', 'none'):
+            if quick and (ci + ('zlib', 'zlib@openssh.com', 'none').index(cmp_)) % 2:
+                continue
+            kw = dict(encryption_algs=[enc], compression_algs=[cmp_])
+            if mac:
+                kw['mac_algs'] = [mac]
+            r = T.run_session(pl, client_kw=kw, server_kw=kw, rekey_bytes=1500)
+            nkex = sum(1 for t, *_ in r['rec'].app['c'] if t == 20)
+            ctx.require(r['outcome'] != 'ok' or nkex >= 3,
+                        f're-key session {enc}/{cmp_} did not re-key '
+                        f'({nkex} KEXINIT)')
+            judge_session(ctx, r, pl, f're-key every 1500 bytes, {enc} '
+                          f'{mac or ""} compression {cmp_}',
+                          {'module': 'Wire', 'rekey': 1500, 'enc': enc,
+                           'cmp': cmp_})
+            ctx.count(('rekey-cmp', enc, cmp_), nontrivial=True)
     # sequence numbers near 2^16 and 2^32: wrap and MAC input width
     for enc, mac in (('aes128-ctr', 'hmac-sha2-256'),
                      ('aes128-cbc', 'hmac-sha1-etm@openssh.com'),
